@@ -52,6 +52,24 @@ func runC11(p *Prog, r *Report) {
 			r.Viol("C11.R2", "loader chain", "-", "FillCache and the option-parser functions that reach it are found", fmt.Sprint(n))
 		}
 	}
+	// what `sx arp --json` prints is JSON on every option combination (live mode included): the arp
+	// command's logger gets the JSON writer exactly when --json is set (C14.R6 re-evaluated for arp)
+	{
+		sub14 := NewReport("C11x", "quick")
+		checkJSONWiring(p, sub14)
+		n14 := 0
+		for _, o := range sub14.Obs {
+			if o.Rule == "C14.R6" && !strings.Contains(o.Construct, "genericScanCmdOpts") { // everything but the application scans' own logger
+				o2 := *o
+				o2.Rule = "C11.R1"
+				r.Obs = append(r.Obs, &o2)
+				n14++
+			}
+		}
+		if n14 < 2 {
+			r.Viol("C11.R1", "arp-json-wiring", "-", "the JSON wiring of the arp command's logger is found", fmt.Sprint(n14))
+		}
+	}
 	checkCacheLocking(p, r)
 	checkResolver(p, r)
 	checkResolverWiring(p, r)
@@ -91,7 +109,7 @@ func cacheLoader(p *Prog) (*ssa.Function, *ssa.Call) {
 		for _, s := range PathsInl(fn).Segs {
 			for _, e := range s.Events {
 				if e.Kind == EvCall {
-					if f := StaticCallee(e.Call); f != nil && f.Name() == "UnmarshalJSON" {
+					if isDecodeCall(e.Call) {
 						return fn, e.Instr.(*ssa.Call)
 					}
 				}
@@ -121,7 +139,7 @@ func checkCacheSchema(p *Prog, r *Report) {
 			}
 		}
 	}
-	decoded := um.Call.Args[0].Type()
+	decoded := decodeTarget(&um.Call).Type()
 	r.Check(emitted != nil && types.Identical(emitted, decoded), "C11.R1", "arp/one-schema", p.Pos(loader.Pos()), "the ARP scan emits and the cache loader decodes one and the same type", fmt.Sprintf("emits %v, decodes %v", emitted, decoded))
 	if pt, ok := decoded.(*types.Pointer); ok {
 		if nt, ok := pt.Elem().(*types.Named); ok {
@@ -175,7 +193,8 @@ func checkCacheLoader(p *Prog, r *Report) {
 			}
 			lf := litFields(s, arg)
 			ip, mac := sxSeg(s, lf["IP"], 0), sxSeg(s, lf["MAC"], 0)
-			okR = strings.HasPrefix(ip, "(net.IP).String(") && strings.HasPrefix(mac, "(net.HardwareAddr).String(")
+			// net.IP.String, or netip.Addr.String of a 4-byte address (the same dotted form, accepted by net.ParseIP)
+			okR = (strings.HasPrefix(ip, "(net.IP).String(") || strings.HasPrefix(ip, "(net/netip.Addr).String(net/netip.AddrFrom4(")) && strings.HasPrefix(mac, "(net.HardwareAddr).String(")
 			whyR = "IP rendered by " + ip + ", MAC by " + mac
 		}
 	}
@@ -211,7 +230,7 @@ func checkCacheLoader(p *Prog, r *Report) {
 		if k, isNil := s.NilFact(um); !k || !isNil {
 			okL, whyL = false, "an entry is stored although decoding the line may have failed"
 		}
-		entry := um.Call.Args[0]
+		entry := decodeTarget(&um.Call)
 		ipArg, macArg := s.Resolve(put.Call.Args[1]), s.Resolve(put.Call.Args[2])
 		ipc, isC := ipArg.(*ssa.Call)
 		if !isC || calleeFull(&ipc.Call) != "net.ParseIP" {
@@ -247,7 +266,7 @@ func checkCacheLoader(p *Prog, r *Report) {
 	checkStaleDecodeTarget(p, subS, loader)
 	if len(subS.Obs) == 0 {
 		// decode inside a per-line helper: its local target is fresh for every call
-		tgt, isA := um.Call.Args[0].(*ssa.Alloc)
+		tgt, isA := decodeTarget(&um.Call).(*ssa.Alloc)
 		fresh := isA && um.Parent() != loader && tgt.Parent() == um.Parent() && len(LoopHeaders(um.Parent())) == 0
 		r.Check(fresh, "C11.R2", name+"/decode-target", pos, "a cache line never inherits fields of the previous line: the decode target is fresh per line", "no UnmarshalJSON into a per-line target found")
 	}
